@@ -34,7 +34,7 @@ PROPS = {
         "not_decided": "single ownership of sectors, no orphans, chain length vs stream size, sibling-tree order and colouring: invariants over the contents of FAT and directory across histories",
     },
     "C07": {
-        "rules": [rules_entry.reloc, rules_entry.hstore, rules_own.make("C07"), rules_struct.cutoff, rules_entry.moveall, rules_struct.unlink("C07"), rules_struct.blankown("C07")],
+        "rules": [rules_entry.reloc, rules_entry.hstore, rules_own.make("C07"), rules_struct.cutoff, rules_entry.moveall, rules_struct.unlink("C07"), rules_struct.blankown("C07"), rules_struct.linkkeep("C07")],
         "explanation": "A handle is bound to its stream only by a slot index, so: R-RELOC - every whole-entry store into the directory table takes a freshly constructed entry (DirEntry::new/unallocated/empty_root_entry/read_from by provenance), never a copy of another slot, and no Vec reordering is applied to the table; "
                        "R-HSTORE - all DirEntry field stores reachable (call graph) from Stream methods are confined to start_sector/stream_len, no structural directory operation is reachable from a handle, and with_dir_entry_mut is applied to the handle's own stream_id; R-OWN - FAT/MiniFAT cells, sector (re)initialisation and the free lists change only inside the allocator's protocol functions with the protocol's argument shapes (a sector taken outside the protocol could be handed to two chains, so that a write through one handle lands in another stream).",
         "not_decided": "that the bytes of other streams are untouched (sector ownership is value-level); validity of a handle after its own stream is removed",
@@ -63,7 +63,7 @@ PROPS = {
         "not_decided": "that the bytes are zero and that the zero-filled range is exactly [old, new): values",
     },
     "C09": {
-        "rules": [rules_name.validname, rules_name.norm, rules_name.orient, rules_struct.unit, rules_struct.unlink("C09"), rules_struct.blankown("C09"), rules_struct.fold("C09"), rules_api.errkind("C09")],
+        "rules": [rules_name.validname, rules_name.norm, rules_name.orient, rules_struct.unit, rules_struct.unlink("C09"), rules_struct.blankown("C09"), rules_struct.linkkeep("C09"), rules_struct.fold("C09"), rules_api.errkind("C09")],
         "explanation": "R-VALIDNAME (must-pass-through, interprocedural): from every DirEntry::new call with a non-constant name, walking up the call graph along the name argument to the public methods, some function validates the name (ok successor of validate_name on data derived from the same parameter dominates the forwarding call; a completed validation loop counts) and no state mutation precedes that validation on the chain. "
                        "R-NORM: every API method's path parameter reaches only name_chain_from_path (or formatting / forwarding to another API method), and lookups/inserts/removals take names derived from its result. "
                        "R-ORIENT: all compare_names sites agree on orientation (sought name first; Less -> left_sibling, Greater -> right_sibling in both the walk and the link update; validate rejects exactly != Less for (left,node) and (node,right)); no other comparator touches entry names in the directory layer. "
